@@ -73,9 +73,16 @@ ContainsHybrid(e) == \E n \in ExprNodes(e) : IsHybrid(n)
 
 \* S1: a side-effecting sub-expression sits inside an arm of ?: without being that arm's
 \*     statement-expression itself (the compiler only guards an arm that *is* a statement expression)
+RECURSIVE IsConstExpr(_)
+IsConstExpr(e) ==
+    CASE e.k = "num" -> TRUE
+      [] e.k \in {"un", "cast"} -> IsConstExpr(e.a)
+      [] e.k = "bin" -> IsConstExpr(e.a) /\ IsConstExpr(e.b)
+      [] OTHER -> FALSE
+\* (a ?: whose condition is a compile-time constant is folded: only the selected arm exists, nothing needs a guard)
 CondArmHybrid(body) ==
     \E n \in SeqNodes(body) :
-        n.k = "cond" /\ \E arm \in {n.a, n.b} :
+        n.k = "cond" /\ ~IsConstExpr(n.c) /\ \E arm \in {n.a, n.b} :
             IF arm.k = "stmtexpr"
             THEN FALSE
             ELSE ContainsHybrid(arm)
@@ -121,12 +128,6 @@ LeavesS(s) ==
       [] OTHER -> <<>>
 CountIn(sq, x) == Cardinality({i \in 1..Len(sq) : sq[i] = x})
 
-RECURSIVE IsConstExpr(_)
-IsConstExpr(e) ==
-    CASE e.k = "num" -> TRUE
-      [] e.k \in {"un", "cast"} -> IsConstExpr(e.a)
-      [] e.k = "bin" -> IsConstExpr(e.a) /\ IsConstExpr(e.b)
-      [] OTHER -> FALSE
 
 \* S3: a ?: with a constant condition one of whose arms mentions a register / variable / immediate that
 \*     also occurs outside that arm (folding the conditional removes the shared operand's declaration)
